@@ -56,7 +56,7 @@ impl Cov {
         }
     }
     pub fn sample(&mut self, v: Value) {
-        if self.samples.len() < 6 {
+        if self.samples.len() < 7 {
             self.samples.push(v);
         }
     }
@@ -119,6 +119,10 @@ impl Ctx {
         self.lane = lane.to_string();
         self.case = case;
         self.cov.cases += 1;
+        if self.cov.samples.is_empty() {
+            // the first case of every worker is always written out (replayable by lane and index)
+            self.cov.samples.push(json!({"lane": lane, "case_index": case, "seed": self.seed, "note": "replay with --replay on a file naming this lane/case"}));
+        }
     }
     pub fn violation(&mut self, summary: String, signature: Option<String>, detail: Value) {
         // cap the number of recorded violations per worker
